@@ -129,6 +129,17 @@ def path(name):
         from trimesh.path.entities import Line
         v = np.array([[0, 0], [4, 0], [4, 4], [0, 4], [1, 1], [2, 1], [2, 2], [1, 2]], float)
         return trimesh.path.Path2D(entities=[Line([0, 1, 2, 3, 0]), Line([4, 5, 6, 7, 4])], vertices=v, process=False)
+    if name == "arcs":
+        # a closed outline made of a line and a major (270 degree) arc, plus a minor arc loop: the sweep direction
+        # and the large-arc flag of the writers both matter
+        from trimesh.path.entities import Line, Arc
+        import math
+        r = 2.0
+        a = [math.radians(x) for x in (45, 180, 315)]
+        v = [[r * math.cos(t), r * math.sin(t)] for t in a]                  # start, mid, end of the major arc
+        v += [[6.0, 0.0], [7.0, 1.0], [8.0, 0.0]]                             # a half circle ...
+        return trimesh.path.Path2D(entities=[Arc([0, 1, 2]), Line([2, 0]), Arc([3, 4, 5]), Line([5, 3])],
+                                   vertices=np.array(v, float), process=False)
     if name == "poly3d":
         return trimesh.load_path(np.array([[0, 0, 0], [1, 0, .5], [1, 2, 1], [0, 0, 0]], float))
     raise KeyError(name)
@@ -156,7 +167,7 @@ def cases(ctx):
     for name in ("pc", "pc_color"):
         for ft in ("xyz", "ply", "glb"):
             yield {"kind": "cloud", "geom": name, "fmt": ft, "opts": {}}
-    for name in ("square", "two_loops", "poly3d"):
+    for name in ("square", "two_loops", "arcs", "poly3d"):
         for ft in ("dxf", "svg", "dict"):
             if name == "poly3d" and ft in ("svg", "dxf"):
                 continue
